@@ -3300,6 +3300,28 @@ impl IceCandidate {
             None
         };
 
+        // Parse optional related address ("raddr <ip> rport <port>") at the same
+        // even extension positions; an unparsable value is ignored.
+        let related_address = {
+            let mut i = 8;
+            loop {
+                if i + 3 >= parts.len() {
+                    break None;
+                }
+                if parts[i] == "raddr" && parts[i + 2] == "rport" {
+                    let rip = parts[i + 1];
+                    break parts[i + 3].parse::<u16>().ok().and_then(|rport| {
+                        if rip.contains(':') {
+                            format!("[{}]:{}", rip, rport).parse().ok()
+                        } else {
+                            format!("{}:{}", rip, rport).parse().ok()
+                        }
+                    });
+                }
+                i += 2;
+            }
+        };
+
         Ok(Self {
             foundation,
             priority,
@@ -3307,7 +3329,7 @@ impl IceCandidate {
             typ,
             transport,
             tcp_type,
-            related_address: None,
+            related_address,
             component,
         })
     }
